@@ -37,6 +37,10 @@ func TestC09_LeftoversRecovered(t *testing.T) {
 				continue
 			}
 			// C08's all-or-nothing judgement is not this property's subject, except that a retry that does not commit is
+			if out.staleRetry {
+				rec.Exclude("the retry went through refetch-and-merge and failed with the recorded C04 finding's signature (stale tracked item pointer)")
+				continue
+			}
 			if out.retryErr != "" {
 				t.Fatalf("crash %s, clock +%ds: the crashed transaction's leftovers still block a writer: %s\n%s", out.site, offset, out.retryErr, h.Render())
 			}
